@@ -1,6 +1,6 @@
 SPECIFICATION Spec
 CONSTANT MaxStmts = 2
-CONSTANT LongN = 500
-CONSTANT OnlyLong = FALSE
+CONSTANT LongN = 7000
+CONSTANT OnlyLong = TRUE
 INVARIANT EndsSane
 CHECK_DEADLOCK FALSE
